@@ -134,6 +134,8 @@ func handleError(t testingT, err any) {
 type syncRegistry struct {
 	running map[string]map[string]int
 	cleanup map[string]map[string]int
+	// how many executions of a test took snapshots, see timesRun
+	executions map[string]int
 	sync.Mutex
 }
 
@@ -147,12 +149,49 @@ func (s *syncRegistry) getTestID(snapPath, testName string) string {
 		s.cleanup[snapPath] = make(map[string]int)
 	}
 
+	if s.running[snapPath][testName] == 0 {
+		// first snapshot of this execution of the test in this file
+		s.executions[snapPath+"\x00"+testName]++
+	}
+
 	s.running[snapPath][testName]++
 	s.cleanup[snapPath][testName]++
 	c := s.running[snapPath][testName]
 	s.Unlock()
 
 	return fmt.Sprintf("[%s - %d]", testName, c)
+}
+
+// timesRun returns how many times the test suite really ran, given the value of -count.
+//
+// The go test runner stops iterating after the first run when no test "ran" in it (e.g.
+// -run selected a test but none of its sub-tests), so with -count=n the tests can have been
+// executed fewer than n times. Dividing the number of registered snapshots by -count would
+// then mark snapshots that were used in this very run as obsolete.
+func (s *syncRegistry) timesRun(count int) int {
+	s.Lock()
+	defer s.Unlock()
+
+	return timesRun(s.executions, count)
+}
+
+func timesRun(executions map[string]int, count int) int {
+	if len(executions) == 0 {
+		return count
+	}
+
+	max := 0
+	for _, n := range executions {
+		if n > max {
+			max = n
+		}
+	}
+
+	if max < count {
+		return max
+	}
+
+	return count
 }
 
 // reset sets only the number of running registry for the given test to 0.
@@ -164,28 +203,36 @@ func (s *syncRegistry) reset(snapPath, testName string) {
 
 func newRegistry() *syncRegistry {
 	return &syncRegistry{
-		running: make(map[string]map[string]int),
-		cleanup: make(map[string]map[string]int),
-		Mutex:   sync.Mutex{},
+		running:    make(map[string]map[string]int),
+		cleanup:    make(map[string]map[string]int),
+		executions: make(map[string]int),
+		Mutex:      sync.Mutex{},
 	}
 }
 
 type syncStandaloneRegistry struct {
 	running map[string]int
 	cleanup map[string]int
+	// how many executions of a test took standalone snapshots, see timesRun
+	executions map[string]int
 	sync.Mutex
 }
 
 func newStandaloneRegistry() *syncStandaloneRegistry {
 	return &syncStandaloneRegistry{
-		running: make(map[string]int),
-		cleanup: make(map[string]int),
-		Mutex:   sync.Mutex{},
+		running:    make(map[string]int),
+		cleanup:    make(map[string]int),
+		executions: make(map[string]int),
+		Mutex:      sync.Mutex{},
 	}
 }
 
 func (s *syncStandaloneRegistry) getTestID(snapPath, snapPathRel string) (string, string) {
 	s.Lock()
+
+	if s.running[snapPath] == 0 {
+		s.executions[snapPath]++
+	}
 
 	s.running[snapPath]++
 	s.cleanup[snapPath]++
@@ -193,6 +240,13 @@ func (s *syncStandaloneRegistry) getTestID(snapPath, snapPathRel string) (string
 	s.Unlock()
 
 	return fmt.Sprintf(snapPath, c), fmt.Sprintf(snapPathRel, c)
+}
+
+func (s *syncStandaloneRegistry) timesRun(count int) int {
+	s.Lock()
+	defer s.Unlock()
+
+	return timesRun(s.executions, count)
 }
 
 func (s *syncStandaloneRegistry) reset(snapPath string) {
